@@ -85,6 +85,8 @@ class Facts:
             self.adts.setdefault(a["path"], a)
             self.adts_by_uid[a["uid"]] = a
         self.impls = [i for i in d["impls"] if not i.get("is_trait_def")]
+        self.cfgs = d.get("cfgs")
+        self.escapes = d.get("escapes")
         self.traits = [i for i in d["impls"] if i.get("is_trait_def")]
         self.children = {}
         for b in self.bodies:
